@@ -295,6 +295,59 @@ pub fn run(tier: Tier, seed: u64) -> i32 {
         }
     });
 
+    // ---- (2b) calls as value expressions: plain, mapped over [*], mapped twice ---------------
+    // (a value expression yields a value of its static type or an absence tagged with it - also
+    // when the static type of a mapped call differs from the type of what it maps over)
+    {
+        let mut cands: Vec<Lhs> = Vec::new();
+        let unary: Vec<(String, Ty, Ty)> = uni
+            .funcs
+            .iter()
+            .filter(|f| f.params.len() == 1 && f.opts.is_empty() && f.special.is_none())
+            .map(|f| (f.name.to_string(), f.params[0].1.clone(), f.ret.clone()))
+            .collect();
+        for (fname, pty, rty) in &unary {
+            for (field, fty, _) in &uni.fields {
+                if fty == pty {
+                    cands.push(Lhs::call(fname, vec![Arg::Lhs(Lhs::field(field))]));
+                }
+                if fty.elem() == Some(pty) {
+                    let mapped = Lhs::call(fname, vec![Arg::Lhs(Lhs::fieldp(field, vec![Idx::Each]))]);
+                    cands.push(mapped.clone());
+                    // a second mapped call over the result of the first
+                    for (gname, gpty, _) in &unary {
+                        if gpty == rty {
+                            let mut inner = mapped.clone();
+                            inner.path.push(Idx::Each);
+                            cands.push(Lhs::call(gname, vec![Arg::Lhs(inner)]));
+                        }
+                    }
+                }
+            }
+        }
+        cands.sort();
+        cands.dedup();
+        par_for(cands.len(), ncpu(), |k| {
+            let l = &cands[k];
+            let text = render_value(l);
+            let want = value_ty(&b.uni, l);
+            let got = guarded(|| b.scheme.parse_value(&text).map(|_| ()).map_err(|e| e.to_string()));
+            run.eval(1);
+            run.count("call_value_candidates", 1);
+            match (&got, &want) {
+                (Ok(Ok(())), Ok(_)) => {
+                    check_value(&run, ID, &b, l);
+                }
+                (Ok(Err(_)), Err(_)) => {}
+                _ => run.violation(
+                    format!("{ID}:value-accept-mismatch:{}:{text}", b.tag),
+                    format!("value expression {text:?}: engine {:?}, reference typer {:?}", got.as_ref().map(|r| r.is_ok()), want.as_ref().map(|t| t.short())),
+                    case_json(&b.tag, "value-candidate", &text, json!(l), None, json!({})),
+                ),
+            }
+        });
+    }
+
     // ---- (3) operand type pairs x logical operator, chains of 2 and 3 -------------------
     let ls = leaves();
     let pool: Vec<Expr> = {
